@@ -161,6 +161,10 @@ class InterpBase:
             return True
         if h == "call" and isinstance(t[1], str) and t[1].split(".")[-1][:1].isupper():
             return True
+        if h == "call" and isinstance(t[1], str) and t[1].split(".")[0] in ("numpy", "np") and \
+                t[1].split(".")[-1] in ("array", "asarray", "ascontiguousarray", "zeros", "ones", "empty", "full", "arange",
+                                        "shape", "reshape", "concatenate", "dtype", "diff", "where", "round", "floor", "ceil"):
+            return True         # TAB: these NumPy constructors / functions never return None
         if h == "call" and t[1] in ("str", "int", "float", "list", "tuple", "len", "dict", "set", "sorted",
                                     "np.array", "np.ascontiguousarray", "np.shape", "type", "bool", "zip",
                                     "enumerate", "range", "map", "nixio.util.util:create_id", "uuid4"):
